@@ -17,13 +17,27 @@ ASSUME = [
 ]
 
 
-def seq_spec(prop, sweep, quick, thorough, rule, after_op=None, tier_kw=None, **kw):
+# properties whose statement is an internal-consistency claim over "every reachable
+# index state": part of their runs sweeps fault-recovered states (sim/recovered.py)
+RECOVERED = {"C04": "out", "C05": "out", "C07": "out", "C08": "out", "C10": "out", "C13": "out", "C20": "in"}
+
+
+def seq_spec(prop, sweep, quick, thorough, rule, after_op=None, tier_kw=None, pre_op=None, **kw):
     def gen(rng, tier, seed):
         g = Gen(rng, prop, tier)
-        return g.case(seed)
+        c = g.case(seed)
+        if prop in RECOVERED and rng.random() < 0.15:
+            from .recovered import add_recovered
+
+            add_recovered(c, g, rng)
+        return c
 
     def run(case):
-        return run_sequential(case, sweep, prop=prop, after_op=after_op)
+        if case.get("recovered"):
+            from .recovered import run_recovered
+
+            return run_recovered(case, prop, sweep, RECOVERED[prop])
+        return run_sequential(case, sweep, prop=prop, after_op=after_op, pre_op=pre_op)
 
     register(
         Spec(
@@ -46,7 +60,7 @@ def seq_spec(prop, sweep, quick, thorough, rule, after_op=None, tier_kw=None, **
 seq_spec("C01", Q.sweep_C01, 10000, 300000, "seeded histories of all write requests over 4 stem profiles; a run is non-trivial when the model holds >= 3 pages at a sweep; distinct = distinct event digests (ops, answers, write log)")
 seq_spec("C02", Q.sweep_C02, 4000, 100000, "seeded histories; non-trivial when the tree has >= 3 levels and at least one left and one right sibling link; distinct = distinct event digests")
 seq_spec("C03", Q.sweep_C03, 2500, 50000, "seeded link histories; non-trivial when >= 3 link submissions over >= 2 distinct pairs; distinct = distinct event digests")
-seq_spec("C04", Q.sweep_C04, 8000, 200000, "seeded webentity edit histories; non-trivial when >= 2 webentities exist at a sweep; distinct = distinct event digests")
+seq_spec("C04", Q.sweep_C04, 8000, 200000, "seeded webentity edit histories; the LRUs a request names are also resolved immediately before and immediately after it; non-trivial when >= 2 webentities exist at a sweep; distinct = distinct event digests", pre_op=Q.pre_op_C04, after_op=Q.after_op_C04)
 seq_spec("C05", Q.sweep_C05, 10000, 300000, "seeded histories; non-trivial when >= 2 webentities and >= 3 resolvable pages; distinct = distinct event digests")
 seq_spec("C06", Q.sweep_C06, 8000, 250000, "seeded rule configurations x histories; non-trivial when >= 2 automatic creations happened; distinct = distinct event digests")
 seq_spec("C07", Q.sweep_C07, 6000, 150000, "seeded histories; non-trivial when the webentity network has >= 1 edge and >= 2 webentities; distinct = distinct event digests")
@@ -173,8 +187,8 @@ register(
         "C16",
         S.gen_C16,
         S.run_C16,
-        5000,
-        120000,
+        3500,
+        100000,
         "exploration",
         "2-3 generator requests (crawl-batch indexing, rule installation, webentity page query, network query, one-step writers) on a seeded pre-populated index, advanced by a seeded scheduler (5 policies) with every loop iteration a yield point; raw-store snapshot after every scheduler step; non-trivial when >= 1 context switch happened with a writer among >= 2 tasks; distinct = distinct event digests (schedule + write log); distinct_schedules also reported",
         "cooperative scheduler",
